@@ -3,7 +3,7 @@ from assemble import Item
 
 NAME = 'rangeu'
 PRELUDE = ['base', 'bigint', 'float', 'rational', 'opaque']
-SPECS = ['range.rs', 'gen:range_specimpls.rs', 'gen:range_bcast.rs']
+SPECS = ['range.rs', 'realarith.rs', 'gen:range_specimpls.rs', 'gen:range_bcast.rs']
 DEPS = ['nint', 'nnum', 'coretypes']
 NEEDS_EXPANDED = True
 
@@ -42,9 +42,23 @@ ITEMS = [
                   ('advances_by_one', 'r is Some ==> (final(self).1 == old(self).1 + 1 && final(self).0 == old(self).0)'),
                   ('length_decreases_by_one', 'r is Some ==> final(self).0.len() - final(self).1 == old(self).0.len() - old(self).1 - 1'),
                   ('exhausted_is_unchanged', 'r is None ==> *final(self) == *old(self)')], props=['C11']),
+    # infinite cycle: the struct invariant (non-empty, offset in range) is established by the `cycle` builtin (bounded grid) and preserved here
+    Item(id='Cycle', kind='type', source=S, locator='struct Cycle', subst=[(r'#\[derive\([^)]*\)\]\s*', '', 'derives dropped')]),
+    Item(id='cycle_next', source=S, locator='impl Iterator for Cycle / fn next', wrap='impl Cycle',
+         requires=[('nonempty_offset_in_range', 'old(self).0.len() > 0 && old(self).1 < old(self).0.len()')],
+         ensures=[('yields_current_element', 'r == Some(Ok::<Obj, NErr>(old(self).0@[old(self).1 as int]))'),
+                  ('advances_cyclically', 'final(self).1 == (old(self).1 + 1) % (old(self).0.len() as int) && final(self).0 == old(self).0'),
+                  ('invariant_preserved', 'final(self).1 < final(self).0.len()')], props=['C11']),
+    Item(id='cycle_peek', source=S, locator='impl Stream for Cycle / fn peek', wrap='impl Cycle',
+         requires=[('nonempty_offset_in_range', 'self.0.len() > 0 && self.1 < self.0.len()')],
+         ensures=[('agrees_with_next', 'r == Some(Ok::<Obj, NErr>(self.0@[self.1 as int]))')], props=['C11']),
+    Item(id='cycle_index', source=S, locator='impl Stream for Cycle / fn pythonic_index_isize', wrap='impl Cycle',
+         requires=[('nonempty_offset_in_range', 'self.0.len() > 0 && self.1 < self.0.len() && self.0.len() <= isize::MAX')],
+         ensures=[('element_at_offset_plus_index_modulo_len', 'r == Ok::<Obj, NErr>(self.0@[(self.1 as int + i as int) % (self.0.len() as int)])')],
+         props=['C11', 'C10']),
 ]
 
-GENERATED_SPECS = {"range_bcast.rs": "verus! {\nbroadcast use lemma_range_count_closed_form;\n}\n",
+GENERATED_SPECS = {"range_bcast.rs": "verus! {\nbroadcast use lemma_range_count_closed_form, lemma_mod_add_reduced;\n}\n",
  'range_specimpls.rs': """verus! {
 impl vstd::std_specs::convert::FromSpecImpl<NInt> for Obj {
     open spec fn obeys_from_spec() -> bool { false }
